@@ -125,12 +125,12 @@ Definition Post (s s' : xs) : Prop :=
 Lemma Div_catch c w w' : Div m w w' ->
   Div m (fst (catch c m true w)) w' /\ active (w_mod (fst (catch c m true w)) m) = false.
 Proof.
-  intros [a b c0 d e f g h i]. unfold catch.
+  intros [a b c0 d e f g gc h i]. unfold catch.
   assert (G : Div m (set_mod w m (set_active (w_mod w m) false)) w').
-  { constructor; cbn [w_buf w_mod set_mod]; rewrite ?N.eqb_refl; cbn [timers nw inc bud tpanics shut set_active]; try assumption.
+  { constructor; cbn [w_buf w_mod set_mod]; rewrite ?N.eqb_refl; cbn [timers nw inc bud tpanics catchf shut set_active]; try assumption.
     intros j Hj. apply N.eqb_neq in Hj. rewrite Hj. apply b. apply N.eqb_neq, Hj. }
-  destruct (c_catch c); cbn [fst]; (split; [|cbn [w_mod set_err set_mod]; rewrite N.eqb_refl; reflexivity]); [exact G|].
-  destruct G as [a' b' c' d' e' f' g' h' i']. constructor; assumption.
+  destruct (catchf (w_mod w m)); cbn [fst]; (split; [|cbn [w_mod set_err set_mod]; rewrite N.eqb_refl; reflexivity]); [exact G|].
+  destruct G as [a' b' c' d' e' f' g' gc' h' i']. constructor; assumption.
 Qed.
 
 Lemma at_sim_start0_post now s s' : AgreeX m s s' ->
@@ -174,7 +174,6 @@ Lemma at_sim_start0_flags now s s' : AgreeX m s s' ->
    snd (at_sim_start (nmods sc) (cfg sc m) now m 0 s) = false /\ snd (at_sim_start (nmods sc') (cfg sc' m) now m 0 s') = false) \/
   (Div m (x_w (fst (at_sim_start (nmods sc) (cfg sc m) now m 0 s))) (x_w (fst (at_sim_start (nmods sc') (cfg sc' m) now m 0 s'))) /\
    active (w_mod (x_w (fst (at_sim_start (nmods sc) (cfg sc m) now m 0 s))) m) = false /\
-   snd (at_sim_start (nmods sc) (cfg sc m) now m 0 s) = negb (c_catch (cfg sc m)) /\
    snd (at_sim_start (nmods sc') (cfg sc' m) now m 0 s') = false).
 Proof.
   intros H. pose proof H as [Ha Hl]. unfold at_sim_start. rewrite N.eqb_refl, nmods', cfg_self, pick_start_quiet.
@@ -186,7 +185,7 @@ Proof.
     cbn [fst snd] in *; subst p1 p1'.
   - left. cbn [catch fst snd x_w]. split; [split; [exact (proj1 E3)|exact (proj2 E3)]|auto].
   - right. destruct (Div_catch (cfg sc m) _ _ E3) as [D1 D2]. cbn [catch] in *.
-    destruct (c_catch (cfg sc m)); cbn [fst snd x_w negb] in *; auto.
+    destruct (catchf (w_mod (x_w s1) m)); cbn [fst snd x_w negb] in *; auto.
 Qed.
 
 Lemma restart_tail_agree now : forall tl s s' e, Forall (fun st => st <> 0) tl -> AgreeX m s s' ->
@@ -221,7 +220,7 @@ Proof.
   destruct (N.eq_dec (c_stages (cfg sc m)) 0) as [E0|E0]; [rewrite E0; left; exact (proj1 H0)|].
   destruct (stage_list_shape (c_stages (cfg sc m))) as (tl & Esl & Htl); [lia|]. rewrite Esl. cbn [fold_left fst snd].
   unfold restart_stage at 2 4.
-  destruct (at_sim_start0_flags now _ _ H0) as [(A1 & A2 & A3)|(D1 & D2 & D3 & D4)].
+  destruct (at_sim_start0_flags now _ _ H0) as [(A1 & A2 & A3)|(D1 & D2 & D4)].
   - destruct (at_sim_start (nmods sc) (cfg sc m) now m 0 _) as [s1 e1], (at_sim_start (nmods sc') (cfg sc' m) now m 0 _) as [s1' e1'].
     cbn [fst snd] in *. subst e1 e1'. left. rewrite (ag_act _ _ _ (proj1 A1) m).
     apply (proj1 (restart_tail_agree now tl s1 s1' _ Htl A1)).
@@ -254,7 +253,7 @@ Proof.
   - pose proof (Hn0 HD) as Hn.
     set (s := f {| x_w := activate now m w; x_log := [] |}) in *.
     set (s' := f' {| x_w := activate now m w'; x_log := [] |}) in *.
-    destruct HD as [vb va vt vn vi vbu vtp vr vs].
+    destruct HD as [vb va vt vn vi vbu vtp vc vr vs].
     assert (Ewk : wake_of m (w_mod (x_w s) m) = wake_of m (w_mod (x_w s') m)) by (unfold wake_of; rewrite vt, vn; reflexivity).
     assert (Enw : nw_after (w_mod (x_w s) m) = nw_after (w_mod (x_w s') m)) by (unfold nw_after; rewrite vt, vn; reflexivity).
     set (base := fes_flush (w_buf (x_w s)) (fes_flush (wake_of m (w_mod (x_w s) m)) (w_fes w))).
@@ -281,7 +280,7 @@ Proof.
       by (rewrite around_fst; fold s'; rewrite buf_process_fes, Hb2; unfold restart_of; rewrite Hsh'; reflexivity).
     assert (Ecs : consumed now (set_nw (w_mod (x_w s) m) (nw_after (w_mod (x_w s) m))) =
                   consumed now (set_nw (w_mod (x_w s') m) (nw_after (w_mod (x_w s') m))))
-      by (unfold consumed; cbn [inc bud nw tpanics set_nw]; rewrite vi, vbu, vtp, Enw; reflexivity).
+      by (unfold consumed; cbn [inc bud nw tpanics catchf set_nw]; rewrite vi, vbu, vtp, vc, Enw; reflexivity).
     destruct (shut (w_mod (x_w s) m)) as [r|] eqn:Es.
     + (* a request was pending: both consume it, the worlds are equal again *)
       assert (Er : restart_of m (w_mod (x_w s') m) = restart_of m (w_mod (x_w s) m)) by (unfold restart_of; rewrite vs, Es; reflexivity).
@@ -358,7 +357,7 @@ Proof.
                     (handle_message_ok _ _ _ _ _) (handle_message_ok _ _ _ _ _)) as [R O].
       * apply handle_message_post. split; [apply activate_agree, Same_agree, HS1|reflexivity].
       * intros HD. destruct (active (w_mod w m)) eqn:Ea; [eapply rt_after_fetch; [exact Hf|apply HRT; reflexivity]|].
-        exfalso. destruct HD as [_ _ _ _ _ _ _ _ vs]. unfold handle_message in vs. cbn [x_w] in vs.
+        exfalso. destruct HD as [_ _ _ _ _ _ _ _ _ vs]. unfold handle_message in vs. cbn [x_w] in vs.
         rewrite activate_active in vs. cbn [w_mod set_fes] in vs. rewrite <- (a m), Ea in vs. cbn [x_w] in vs.
         rewrite activate_shut in vs. cbn [w_mod set_fes] in vs. rewrite <- (a m), Hsh in vs. discriminate.
       * split; [exact R|apply O].
@@ -369,7 +368,7 @@ Proof.
       destruct (Mev (async_wakeup (nmods sc) t m) (async_wakeup (nmods sc) t m) (async_wakeup_ok _ _ _) (async_wakeup_ok _ _ _)) as [R O].
       * left. apply async_wakeup_agree. split; [apply activate_agree, Same_agree, HS1|reflexivity].
       * intros HD. destruct (active (w_mod w m)) eqn:Ea; [eapply rt_after_fetch; [exact Hf|apply HRT; reflexivity]|].
-        exfalso. destruct HD as [_ _ _ _ _ _ _ _ vs]. unfold async_wakeup in vs. cbn [x_w] in vs.
+        exfalso. destruct HD as [_ _ _ _ _ _ _ _ _ vs]. unfold async_wakeup in vs. cbn [x_w] in vs.
         rewrite activate_active in vs. cbn [w_mod set_fes] in vs. rewrite <- (a m), Ea in vs. cbn [x_w] in vs.
         rewrite activate_shut in vs. cbn [w_mod set_fes] in vs. rewrite <- (a m), Hsh in vs. discriminate.
       * split; [exact R|apply O].
